@@ -684,6 +684,9 @@ func (x *Exec) builtin(st *State, b *ssa.Builtin, c *ssa.CallCommon, args []Val,
 			x.unsupported(st, pos, "append %s to %s", bt.Sort, a.Sort)
 		}
 		e := seqElem(a.Sort)
+		if st.views[a.S] {
+			x.unsupported(st, pos, "append to a re-sliced view of a live slice (it may overwrite the original's elements: outside the immutable-sequence idealisation)")
+		}
 		x.trusted["A-seq: slices are immutable sequence values; append never aliases spare capacity"] = true
 		return one(mkT(a.Sort, App(a.Sort, "cat_"+e, a, bt).S, c.Args[0].Type()))
 	case "copy":
